@@ -209,6 +209,38 @@ func c11Random(c *Case) {
 	case 4: // a union as a predicate of a step with several candidates: it is re-evaluated for each of them
 		rl, rr := g.RelFreePath(1+g.Intn(2), names), g.RelFreePath(1+g.Intn(2), names)
 		var pred xref.Expr = xref.Bin{Op: "|", L: rl, R: rr}
+		if g.Chance(0.5) {
+			// two to four operands, absolute and relative ones mixed in any position, grouped to the left or to the
+			// right: an operand that depends on the candidate must be evaluated for every candidate, whatever its
+			// neighbours are; used as a boolean, negated, or compared with a value that occurs in the document
+			operand := func() xref.Expr {
+				q := g.FreePath(1+g.Intn(2), names)
+				q.Abs = g.Chance(0.5)
+				if !q.Abs && q.Steps[0].Abbrev == "//" {
+					q.Steps = append([]*xref.Step{xgen.SelfDot()}, q.Steps...)
+				}
+				return q
+			}
+			pred = xref.Bin{Op: "|", L: operand(), R: operand()}
+			for k := 0; k < 2 && g.Chance(0.6); k++ {
+				if g.Chance(0.7) {
+					pred = xref.Bin{Op: "|", L: pred, R: operand()}
+				} else {
+					pred = xref.Bin{Op: "|", L: operand(), R: xref.Group{X: pred}}
+				}
+			}
+			if g.Chance(0.5) {
+				vals := []string{}
+				for _, n := range d.Nodes {
+					if n.Kind == xdoc.Text || n.Kind == xdoc.Attr {
+						vals = append(vals, n.Data)
+					}
+				}
+				if len(vals) > 0 {
+					pred = xref.Bin{Op: g.Pick("=", "=", "!="), L: pred, R: xref.Str{V: vals[g.Intn(len(vals))]}}
+				}
+			}
+		}
 		if g.Chance(0.3) {
 			pred = xref.Call{Name: "not", Args: []xref.Expr{pred}}
 		} else if g.Chance(0.3) {
